@@ -12,7 +12,49 @@ KIND = {
 
 
 def kind_of(m):
-    return KIND.get(m.name, 'UNKNOWN')
+    """the operation kind the property texts give a public method by name; a public method they do not name (one added later) is
+    judged by what it does (classify_new_method): an operation that stores a value under a key is an insert, one that removes the
+    entry found for a key is an erase, one that consults the index for a key is a lookup"""
+    k = KIND.get(m.name)
+    if k is not None:
+        return k
+    return getattr(m, 'eff_kind', None) or 'UNKNOWN'
+
+
+def named(m):
+    return m.name in KIND
+
+
+def classify_new_method(an, cm, roles, m):
+    keep, pruned = lift.segments_of(an, cm, roles, m)
+    binds = upd = unb_live = consult = False
+    for top in keep:
+        for seg in top.all_segments():
+            if seg.effs('BIND'):
+                binds = True
+            for e in seg.effs('VAL'):
+                if isinstance(e.ent, Ent) and e.ent.kind == 'FOUND' and not (isinstance(e.val, tuple) and e.val[:1] == ('moved',)):
+                    upd = True
+            for e in seg.effs('UNBIND'):
+                if isinstance(e.ent, Ent) and e.ent.kind == 'FOUND':
+                    dead = any(c[0] in ('EXPIRED', 'EXPIRED_STRICT') and c[2] is True and isinstance(c[1][0], Ent) and c[1][0].key() == e.ent.key()
+                               for c in seg.conds)
+                    if not dead:
+                        unb_live = True
+            if seg.conds_of('PRESENT'):
+                consult = True
+    # does a live hit of this method ever record a use (re-order / re-count / re-stamp the entry)?  Then every live hit must.
+    USE_KINDS = ('MOVE', 'AUX_ADD', 'AUX_DEL', 'AUX_MOVE', 'STAMP')
+    m.eff_use = any(seg.cond('PRESENT') is True and any(e.kind in USE_KINDS for e in seg.effects)
+                    and not any(e.kind == 'UNBIND' for e in seg.effects)
+                    for top in keep for seg in top.all_segments())
+    if binds or upd:
+        return 'INSERT'
+    if unb_live:
+        return 'ERASE'
+    if consult:
+        return 'FIND'
+    return 'UNKNOWN'
 
 
 def is_range_method(m):
